@@ -49,7 +49,7 @@ def gen_c20_vectors(ctx):
     as ndjson vectors; the c20 driver instantiates and runs each one on the real helpers."""
     import os as _o
     vec = _o.path.join(ctx['scratch'], 'c20-vectors.ndjson')
-    r = vf.run_mc('MBT_C20', ctx['scratch'], workers=4, env={'VEC_FILE': vec, 'MBT_TIER': ctx['tier']})
+    r = vf.run_mc('MBT_C20', ctx['scratch'], workers=1, env={'VEC_FILE': vec, 'MBT_TIER': ctx['tier']})   # constants are evaluated once per worker
     n = vf.count_lines(vec)
     vf.log('[mbt] MBT_C20: TLC generated %d programs' % n)
     ctx['env']['VERIF_VEC'] = vec
